@@ -47,10 +47,29 @@ with codec_ok_ms (ms : members) : bool :=
   end.
 Definition codec_in_scope (t : ty) : bool := codec_ok t.
 
+(* the model assumes that a nested DynamicData carries the type its member descriptor
+   declares.  That fails in one situation only: two key-holder members share an id and a
+   structure value ends up paired with the other member's descriptor (the code serializes
+   it with the value's OWN type).  Those cases are left unpredicted (they lie inside the
+   recorded class C11-key-id-collision; the oracle still judges them). *)
+Fixpoint has_struct (t : ty) : bool :=
+  match t with
+  | TStruct _ _ => true
+  | TSeq e _ | TArr e _ => has_struct e
+  | _ => false
+  end.
+Fixpoint any_struct (ms : members) : bool :=
+  match ms with MNil => false | MCons _ _ _ t r => has_struct t || any_struct r end.
+Definition model_in_scope (t : ty) : bool := key_ids_unique t || negb (any_struct (kh_type t)).
+
 Definition KH_run (o : KH_op) : list (option hres) :=
   match o with
-  | OpH t d1 d2 => [Some (hres_of (instance_handle t d1)); Some (hres_of (instance_handle t d2))]
+  | OpH t d1 d2 =>
+      if model_in_scope t
+      then [Some (hres_of (instance_handle t d1)); Some (hres_of (instance_handle t d2))]
+      else [None; None]
   | OpR t d =>
+    if negb (model_in_scope t) then [None; None; None; None; None; None; None] else
       let w := hres_of (instance_handle t d) in
       match w with
       | H _ =>
